@@ -286,12 +286,18 @@ Dir(ctl, d, ps, q, st) ==
               IN Run(ctl, sc.after, q, [r EXCEPT !.stop = "no"])
     [] OTHER -> Fail(st, "directive outside the modelled set")
 
+\* the kinds of the prefix parameters after v and # have been resolved: pad and comma characters are characters, everything
+\* else is an integer (a v that took an argument of another kind leaves the consequences undefined: "open", not judged)
+ChrPos(ch) == CASE ch \in {"a", "s"} -> {4} [] ch \in {"d", "b", "o", "x"} -> {2, 3} [] ch = "r" -> {3, 4} [] OTHER -> {}
+KindsOK(d, ps) == d.ch \notin {"a", "s", "d", "b", "o", "x", "r", "%", "&", "|", "~", "t", "*"}
+                  \/ \A i \in 1..Len(ps) : ps[i].t = "none" \/ (IF i \in ChrPos(d.ch) THEN ps[i].t = "chr" ELSE ps[i].t = "int")
 \* run ctl[p .. q-1]
 Run(ctl, p, q, st) ==
   IF p >= q \/ st.stop # "no" \/ st.err # "" THEN st
   ELSE IF ctl[p] # "~" THEN Run(ctl, p + 1, q, [st EXCEPT !.out = Append(@, ctl[p])])
   ELSE LET d == ParseDir(ctl, p + 1)  r == Resolve(st, d.params, <<>>) IN
        IF r.st.err # "" THEN r.st
+       ELSE IF ~KindsOK(d, r.ps) THEN Fail(r.st, "a prefix parameter of the wrong kind")
        ELSE IF d.ch \in {"(", "[", "{"} THEN Dir(ctl, d, r.ps, q, r.st)     \* these continue after their closing directive themselves
        ELSE Run(ctl, d.next, q, Dir(ctl, d, r.ps, q, r.st))
 
